@@ -443,6 +443,7 @@ func c06(p *core.Program, r *core.Report) {
 	parsedNumberRule(p, r, "number-only-when-parsed")
 	ordinateFromStrconvRule(p, r, "ordinate-from-strconv")
 	nestingUnboundedRule(p, r, "nesting-depth-unbounded")
+	parserErrorRecordedRule(p, r, "parser-error-recorded")
 
 	// ---- GENSYNC
 	genSyncRule(p, r, "gensync")
